@@ -3,17 +3,20 @@ import ScyllaVerif.Model.Prepared
 /-! Line-protocol driver for C14.
 
 Case: `hist <nodes> <stmts> <steps>`
-* `<nodes>`  = `E,N,…`   one letter per node: `E` metadata-id extension negotiated, `N` not
+* `<nodes>`  = `E,N,…`   one letter per node: `E` metadata-id extension negotiated, `N` not; `G` / `H` = `E` / `N`
+               with a (scripted, shared) timestamp generator on every connection to the node
 * `<stmts>`  = `n1,l3,z2,…` per statement number: kind (`n` normal, `l` late, `z` late0) and initial shape 0..5
 * `<steps>`  = `;`-separated schedule (callers `k`, nodes `n`, statement numbers `s`):
     `N<k>.<s>.<n>`                                  caller k starts `Connection::prepare` of statement s on node n
-    `A<k>.x.<s>.<n>.<u>.<cl>.<ts>.<pg>.<ps>`        caller k starts an execution (u = use_cached_result_metadata)
-    `A<k>.b.<n>.<cl>.<ts>.<s1>,<s2>,…`              caller k starts a batch
+    `A<k>.x.<s>.<n>.<u>.<cl>.<scl>.<ts>.<pg>.<ps>.<nv>`  caller k starts an execution (u = use_cached_result_metadata,
+                                                    scl = serial consistency, nv = number of bound values)
+    `A<k>.b.<n>.<cl>.<scl>.<ts>.<s1>,<s2>,…`        caller k starts a batch
     `S<k>`  the node consumes caller k's request     `R<k>`  caller k receives its response
     `C<k>`  = `S<k>;R<k>` repeated until caller k is idle
     `E<n>.ev.<s>` evict  `E<n>.sc.<s>.<shape>` schema change  `E<n>.ic.<s>` id change
     `E<n>.pf.<s>.<0|1>` PREPARE fails  `E<n>.li.<0|1>` UNPREPARED names a bogus id
-The bound value of the operation started by step number i is `10*i` (batch item j: `10*i+j`).
+    `E<n>.ov.<pv|pc|er|vo|mc|fm|fn>` one-shot byzantine answer (`Ov` in Model/Prepared.lean)
+The bound values of the execution started by step number i are `10*i, 10*i+1, …` (batch item j: the one value `10*i+j`).
 Output: one token per step joined by ` ; ` and a final `end …` dump of the current result columns. -/
 namespace ScyllaVerif.Drive.C14
 open ScyllaVerif.Util ScyllaVerif.Prepared
@@ -31,6 +34,8 @@ def shapeMeta (k : Nat) : SMeta := ⟨s!"m{k}", shapeCols k⟩
 def showCols (cs : List Col) : String :=
   if cs.isEmpty then "-"
   else ",".intercalate (cs.map (fun c => c.name ++ ":" ++ (match c.ty with | .int => "int" | .text => "text")))
+
+def showSId (i : SId) : String := if i.stmt == 1000 then "bogus" else s!"q{i.stmt}v{i.ver}"
 
 def showOptId : Option Id → String
   | none => "~"
@@ -53,19 +58,23 @@ def showRows : Option (List (List Val)) → String
 def showReq (node : Nat) : Req → String
   | .prepare t => s!">n{node} PREP {t}"
   | .execute r =>
-    s!">n{node} EXEC id={r.id} mid={showOptId r.mid} skip={if r.skip then 1 else 0} v={natList r.values} cl={r.cl} ts={showOpt toString r.ts} pg={showOpt toString r.pageSize} ps={showOpt id r.ps}"
+    s!">n{node} EXEC id={showSId r.id} mid={showOptId r.mid} skip={if r.skip then 1 else 0} v={natList r.values} cl={r.cl} scl={showOpt toString r.scl} ts={showOpt toString r.ts} pg={showOpt toString r.pageSize} ps={showOpt id r.ps}"
   | .batch b =>
-    let items := ",".intercalate (b.stmts.map (fun (i, v) => s!"{i}/{v}"))
-    s!">n{node} BATCH {if items.isEmpty then "-" else items} cl={b.cl} ts={showOpt toString b.ts}"
+    let items := ",".intercalate (b.stmts.map (fun (i, v) => s!"{showSId i}/{"+".intercalate (v.map toString)}"))
+    s!">n{node} BATCH {if items.isEmpty then "-" else items} cl={b.cl} scl={showOpt toString b.scl} ts={showOpt toString b.ts}"
 
 def showResp : Resp → String
-  | .unprepared i => s!"<unprepared:{i}"
+  | .unprepared i => s!"<unprepared:{showSId i}"
   | .error c => s!"<error:{c}"
   | .void => "<void"
   | .rows r =>
-    let m := if r.noMeta then "nometa" else match r.newId with | some i => s!"meta+{i}" | none => "meta"
+    let m := match r.noMeta, r.newId with
+      | true, some i => s!"nometa+{i}"
+      | true, none => "nometa"
+      | false, some i => s!"meta+{i}"
+      | false, none => "meta"
     s!"<rows:{m}:{r.colCount}"
-  | .prepared p => s!"<prepared:{p.id}:{showOptId p.mid}:{if p.noMeta then "nometa" else showCols p.cols}"
+  | .prepared p => s!"<prepared:{showSId p.id}:{showOptId p.mid}:{if p.noMeta then s!"nometa{p.colCount}" else showCols p.cols}"
 
 def showOutcome : Outcome → String
   | .rows m d more => s!"=rows cols={showCols m.cols} r={showRows d} more={showOpt id more}"
@@ -141,21 +150,22 @@ def doStep (nNodes nStmts : Nat) (st : State) (idx : Nat) (w : String) : Option 
         | some s, some n =>
           if okS s && okN n then let (st1, ob) := start st k (.prepare s n); some (st1, [showObs ob]) else none
         | _, _ => none
-      | 'A', ["x", s, n, u, cl, ts, pg, ps] =>
-        match s.toNat?, n.toNat?, bool01 u, cl.toNat?, optNat ts, optNat pg, optPs ps with
-        | some s, some n, some u, some cl, some ts, some pg, some ps =>
-          if !(okS s && okN n) then none else
-          let (st1, ob) := start st k (.execute ⟨s, n, u, cl, ts.map Int.ofNat, pg, ps, 10 * idx⟩)
+      | 'A', ["x", s, n, u, cl, scl, ts, pg, ps, nv] =>
+        match s.toNat?, n.toNat?, bool01 u, cl.toNat?, optNat scl, optNat ts, optNat pg, optPs ps, nv.toNat? with
+        | some s, some n, some u, some cl, some scl, some ts, some pg, some ps, some nv =>
+          if !(okS s && okN n && nv ≤ 4) then none else
+          let vals := (List.range nv).map (fun j => 10 * idx + j)
+          let (st1, ob) := start st k (.execute ⟨s, n, u, cl, scl, ts.map Int.ofNat, pg, ps, vals⟩)
           some (st1, [showObs ob])
-        | _, _, _, _, _, _, _ => none
-      | 'A', ["b", n, cl, ts, items] =>
-        match n.toNat?, cl.toNat?, optNat ts, parseNatList items with
-        | some n, some cl, some ts, some items =>
+        | _, _, _, _, _, _, _, _, _ => none
+      | 'A', ["b", n, cl, scl, ts, items] =>
+        match n.toNat?, cl.toNat?, optNat scl, optNat ts, parseNatList items with
+        | some n, some cl, some scl, some ts, some items =>
           if !(okN n && items.all okS) then none else
-          let its := items.zipIdx.map (fun (s, j) => (s, 10 * idx + j))
-          let (st1, ob) := start st k (.batch ⟨n, cl, ts.map Int.ofNat, its⟩)
+          let its := items.zipIdx.map (fun (s, j) => (s, [10 * idx + j]))
+          let (st1, ob) := start st k (.batch ⟨n, cl, scl, ts.map Int.ofNat, its⟩)
           some (st1, [showObs ob])
-        | _, _, _, _ => none
+        | _, _, _, _, _ => none
       | 'S', [] => let (st1, ob) := serveStep st k; some (st1, [showObs ob])
       | 'R', [] => let (st1, s) := recvShown st k; some (st1, [s])
       | 'C', [] =>
@@ -172,6 +182,11 @@ def doStep (nNodes nStmts : Nat) (st : State) (idx : Nat) (w : String) : Option 
         match s.toNat?, bool01 on with
         | some s, some on => let (st1, ob) := eventStep st k (.prepFail s on); some (st1, [showObs ob])
         | _, _ => none
+      | 'E', ["ov", o] =>
+        let ov : Option Ov := match o with
+          | "pv" => some .prepVoid | "pc" => some .prepCount | "er" => some .execError | "vo" => some .execVoid
+          | "mc" => some .malformed | "fm" => some .forceMeta | "fn" => some .forceNoMeta | _ => none
+        ov.map (fun o => let (st1, ob) := eventStep st k (.override o); (st1, [showObs ob]))
       | 'E', ["li", on] => (bool01 on).map (fun on => let (st1, ob) := eventStep st k (.liar on); (st1, [showObs ob]))
       | _, _ => none
 
@@ -201,11 +216,13 @@ def parseStmt (w : String) : Option SrvStmt :=
 
 def parseNode (stmts : List SrvStmt) (w : String) : Option Node :=
   let st : Nat → SrvStmt := fun i => stmts.getD i ⟨0, shapeMeta 0, .normal, false⟩
-  if w == "E" then some ⟨true, [], st, false⟩
-  else if w == "N" then some ⟨false, [], st, false⟩
+  if w == "E" then some ⟨true, false, [], st, false, none⟩
+  else if w == "N" then some ⟨false, false, [], st, false, none⟩
+  else if w == "G" then some ⟨true, true, [], st, false, none⟩
+  else if w == "H" then some ⟨false, true, [], st, false, none⟩
   else none
 
-def dummyStmt : Stmt := ⟨"", "", RMeta.empty, RMeta.empty⟩
+def dummyStmt : Stmt := ⟨"", ⟨0, 0⟩, RMeta.empty, RMeta.empty⟩
 
 def endDump (st : State) (nStmts : Nat) : String :=
   "end " ++ " ".intercalate ((List.range nStmts).map (fun s =>
@@ -224,8 +241,8 @@ def run (case _impl : String) : String :=
       | some ns =>
         let st0 : State :=
           { objs := fun _ => dummyStmt, nObjs := 0, slot := fun _ => none,
-            node := fun i => ns.getD i ⟨false, [], fun _ => ⟨0, shapeMeta 0, .normal, false⟩, false⟩,
-            caller := fun _ => ⟨.idle, .none⟩ }
+            node := fun i => ns.getD i ⟨false, false, [], fun _ => ⟨0, shapeMeta 0, .normal, false⟩, false, none⟩,
+            caller := fun _ => ⟨.idle, .none⟩, tsCtr := 0 }
         match runSteps ns.length ss.length st0 0 ((steps.splitOn ";").filter (· ≠ "")) with
         | none => "bad-case"
         | some (st, out) => " ; ".intercalate (out ++ [endDump st ss.length])
